@@ -2,6 +2,7 @@ package main
 
 import (
 	"fmt"
+	"go/token"
 	"go/types"
 	"strings"
 
@@ -440,4 +441,147 @@ func neverBefore(c *Check, rule string, fn *ssa.Function, first, then, okDetail,
 		}
 	}
 	c.Req(ok, rule, construct, pos, okDetail, badDetail)
+}
+
+// nothingBeforeValidity: in a light client's CheckHeaderAndUpdateState every state-changing helper (set*/delete*/update,
+// pruning included) runs only after checkValidity accepted the header: a refused header leaves the client untouched,
+// and a header is judged against the state as it was before any pruning.
+func nothingBeforeValidity(c *Check, rule, fnSpec string) {
+	fn := c.F(fnSpec)
+	fa := c.P.FA(fn)
+	n, kv := 0, 0
+	for _, cs := range c.P.CallsIn(fn) {
+		callee := c.P.resolveCallee(cs.Ins.Common())
+		label := ""
+		switch {
+		case callee != nil && inTeleport(callee):
+			nm := strings.ToLower(callee.Name())
+			if strings.HasPrefix(nm, "set") || strings.HasPrefix(nm, "delete") || nm == "update" || strings.HasPrefix(nm, "restrict") {
+				label = callee.Name()
+			}
+		case strings.HasSuffix(cs.Name, "types.KVStore.Set") || strings.HasSuffix(cs.Name, "types.KVStore.Delete"):
+			kv++
+			label = cs.Name[strings.LastIndex(cs.Name, "KVStore"):] + "#" + fmt.Sprint(kv) // (a write of an inlined helper)
+		}
+		if label == "" {
+			continue
+		}
+		n++
+		ok := false
+		for s := range fa.PathCondStrings(cs.Ins.Block()) {
+			if strings.Contains(s, "types.checkValidity(") && strings.HasSuffix(s, " == nil)") {
+				ok = true
+			}
+		}
+		c.Req(ok, rule, fmt.Sprintf("%s/%s after checkValidity", funcName(fn), label), cs.Ins.Pos(), "", label+" can run before (or without) a successful checkValidity: the header is validated against an already modified store, or a refused header leaves changes behind")
+	}
+	c.Req(n > 0, rule, funcName(fn)+"/state-changing helpers found", fn.Pos(), fmt.Sprint(n), "no state-changing helper recognised in "+funcName(fn))
+}
+
+// staleFieldReads: a function that overwrites a field of the object it is given (clientState.Validators = …) does not
+// keep using, after the overwrite, a value it read from that field before it (a hoisted `limit := len(cs.Validators)/2+1`
+// that is still used once the validator set was switched).
+func staleFieldReads(c *Check, rule, fnSpec string) {
+	fn := c.F(fnSpec)
+	fa := c.P.FA(fn)
+	type fieldKey struct {
+		base  ssa.Value
+		field int
+	}
+	stores := map[fieldKey][]*ssa.Store{}
+	loads := map[fieldKey][]*ssa.UnOp{}
+	for _, b := range fn.Blocks {
+		for _, ins := range b.Instrs {
+			switch t := ins.(type) {
+			case *ssa.Store:
+				if fad, ok := t.Addr.(*ssa.FieldAddr); ok {
+					if _, isParam := fad.X.(*ssa.Parameter); isParam {
+						stores[fieldKey{fad.X, fad.Field}] = append(stores[fieldKey{fad.X, fad.Field}], t)
+					}
+				}
+			case *ssa.UnOp:
+				if fad, ok := t.X.(*ssa.FieldAddr); ok && t.Op == token.MUL {
+					if _, isParam := fad.X.(*ssa.Parameter); isParam {
+						loads[fieldKey{fad.X, fad.Field}] = append(loads[fieldKey{fad.X, fad.Field}], t)
+					}
+				}
+			}
+		}
+	}
+	after := func(a, b ssa.Instruction) bool { // b can execute after a
+		if a.Block() == b.Block() {
+			return instrIndex(a) < instrIndex(b) || fa.inCycle(a.Block())
+		}
+		for _, s := range a.Block().Succs {
+			if s == b.Block() || fa.reachFrom(s)[b.Block().Index] {
+				return true
+			}
+		}
+		return false
+	}
+	n := 0
+	for k, sts := range stores {
+		st := derefStruct(k.base.Type())
+		fname := "?"
+		if st != nil {
+			fname = st.Field(k.field).Name()
+		}
+		for _, s := range sts {
+			for _, ld := range loads[k] {
+				if !after(ld, s) || after(s, ld) && !fa.inCycle(ld.Block()) && after(s, ld) && !after(ld, s) {
+					continue // the read is not before the overwrite
+				}
+				if !after(ld, s) {
+					continue
+				}
+				// uses of the loaded value (through pure operations) that can execute after the store
+				seen := map[ssa.Value]bool{}
+				var stale ssa.Instruction
+				var walk func(v ssa.Value, d int)
+				walk = func(v ssa.Value, d int) {
+					if d > 6 || seen[v] || stale != nil {
+						return
+					}
+					seen[v] = true
+					refs := v.Referrers()
+					if refs == nil {
+						return
+					}
+					for _, u := range *refs {
+						if u == ssa.Instruction(s) {
+							continue
+						}
+						if after(s, u) && !(u.Block() == s.Block() && instrIndex(u) < instrIndex(s)) {
+							switch u.(type) {
+							case *ssa.BinOp, *ssa.UnOp, *ssa.Convert, *ssa.ChangeType, *ssa.Phi:
+							default:
+								stale = u
+								return
+							}
+						}
+						if uv, ok := u.(ssa.Value); ok {
+							switch u.(type) {
+							case *ssa.BinOp, *ssa.UnOp, *ssa.Convert, *ssa.ChangeType, *ssa.Phi, *ssa.Call:
+								if _, isCall := u.(*ssa.Call); isCall {
+									if !strings.HasPrefix(c.P.Ex(fn).E(uv).String(), "len(") {
+										continue
+									}
+								}
+								walk(uv, d+1)
+							}
+						}
+					}
+				}
+				walk(ld, 0)
+				n++
+				c.Req(stale == nil, rule, fmt.Sprintf("%s/field %s read at %s", funcName(fn), fname, c.P.Pos(ld.Pos())), ld.Pos(), "not used after the overwrite", fmt.Sprintf("a value read from %s before it is overwritten (%s) is still used afterwards (%s): the later step works on the replaced value", fname, c.P.Pos(s.Pos()), func() string {
+					if stale != nil {
+						return c.P.Pos(stale.Pos())
+					}
+					return ""
+				}()))
+			}
+		}
+	}
+	c.Req(len(stores) > 0, rule, funcName(fn)+"/overwrites a field of its argument", fn.Pos(), fmt.Sprint(len(stores), " field(s), ", n, " earlier read(s) checked"), "no field store found (anchor drifted)")
 }
